@@ -76,6 +76,10 @@ func (s *MergeExp) HasRef() bool {
 	if s.ForkNode != nil {
 		return true
 	}
+	if s.MergeOver != nil && !s.MergeOver.KnownLength() {
+		// The shape of the result is only known at runtime.
+		return true
+	}
 	return s.Value.HasRef()
 }
 
